@@ -68,6 +68,8 @@ def run_pyvc(rep: Report, keys, native_limit=150):
     from .pyvc import spec as S
     prefix = rep.prop + "."
     keys = [k for k in keys if not S.CONTRACTS[k].assumed]
+    # few functions: spend the idle cores inside each function (obligations discharged in forked children)
+    os.environ["VERIF_INNER_PAR"] = str(max(1, NPROC // max(1, len(keys))))
     outs = pool_map(_verify_one, [(k, prefix) for k in keys])
     for results, meta in outs:
         rep.extend(results)
